@@ -132,4 +132,65 @@ func authenticatedMap.WasRestoredFromStorage
   instantiate V: string
   requires m != nil && inv(m)
   ensures r0 <==> m.root.has
+
+-- ---------------------------------------------------------------------------------------------------------------
+-- construction / reopening: both ways of obtaining the trie - a new one, and the one imported under the stored root -
+-- are configured alike (exactly one option: the value hasher switched off, which is what makes Get return the stored
+-- bytes; a reopened map configured differently answers differently for the same contents), and the four parts of the
+-- map live under four different prefixes of the store
+func newMapStoreAdapter
+  ensures r0 != nil && fresh(r0) && r0.underlying == store
+
+func newAuthenticatedMap
+  instantiate IdentifierType: [32]byte
+  instantiate K: string
+  instantiate V: string
+  requires store != nil && identifierToBytes != nil && bytesToIdentifier != nil && keyToBytes != nil && bytesToKey != nil && valueToBytes != nil && bytesToValue != nil
+  modifies everything
+  ghost local vhopt Int       -- the option made last (ghost)
+  ghost before call WithValueHasher: assert arg0 == nil
+  ghost after call WithValueHasher: vhopt = result
+  ghost before call ImportSparseMerkleTrie: assert len(arg3) == 1 && arg3[0] == vhopt
+  ghost before call NewSparseMerkleTrie: assert len(arg2) == 1 && arg2[0] == vhopt
+  ghost before call KVStore.WithExtendedRealm #1: assert arg0 == store && len(arg1) == 1 && arg1[0] == prefixRawKeysStorage
+  ghost before call KVStore.WithExtendedRealm #2: assert arg0 == store && len(arg1) == 1 && arg1[0] == prefixTreeStorage
+  ghost before call NewTypedValue #1: assert arg0 == store && len(arg1) == 1 && arg1[0] == prefixSizeKey
+  ghost before call NewTypedValue #2: assert arg0 == store && len(arg1) == 1 && arg1[0] == prefixRootKey
+  ensures r0 != nil && r0.tree != nil && r0.size != nil && r0.root != nil && r0.rawKeysStore != nil
+  ensures r0.keyToBytes == keyToBytes && r0.valueToBytes == valueToBytes && r0.bytesToValue == bytesToValue
+
+-- Stream: under the map's lock, every stored key is handed to the callback together with the value decoded from the bytes
+-- the trie holds for that very key
+func authenticatedMap.Stream
+  instantiate IdentifierType: [32]byte
+  instantiate K: string
+  instantiate V: string
+  opt sequential
+  requires m != nil && inv(m) && unlocked(m.mutex) && callback != nil
+  callback callback(k, v) (cerr)
+  modifies everything
+  ghost before call TypedStore.IterateKeys: assert arg0 == m.rawKeysStore && len(arg1) == 0 && held(m.mutex)
+  ensures unlocked(m.mutex)
+
+func authenticatedMap.Stream$1
+  instantiate IdentifierType: [32]byte
+  instantiate K: string
+  instantiate V: string
+  requires m != nil && *m != nil && inv(*m) && innerErr != nil && callback != nil && *callback != nil
+  callback callback(k, v) (cerr)
+  modifies everything
+  ghost local keystr Str      -- the serialized key (ghost)
+  ghost local valstr Str      -- the bytes the trie holds for it (ghost)
+  ghost local val Str         -- the value decoded from those bytes (ghost)
+  ghost local decoded Bool    -- ... has been decoded in this invocation (ghost)
+  ghost at entry: decoded = false
+  ghost before call authenticatedMap#keyToBytes: assert arg0 == key
+  ghost after call authenticatedMap#keyToBytes: keystr = str(r0)
+  ghost before call SMT.Get: assert arg0 == (*m).tree && str(arg1) == keystr
+  ghost after call SMT.Get: valstr = str(r0)
+  ghost before call authenticatedMap#bytesToValue: assert str(arg0) == valstr
+  ghost after call authenticatedMap#bytesToValue: val = r0
+  ghost after call authenticatedMap#bytesToValue: decoded = true
+  ghost before call authenticatedMap.Stream$1#callback: assert decoded && arg0 == key && arg1 == val
+  ensures !r0 ==> *innerErr != nil
 @*/
